@@ -166,31 +166,50 @@ Qed.
 Lemma group_single it : group_into_moment_compatible [it] = [[it]].
 Proof. destruct it; reflexivity. Qed.
 
+Local Arguments place : simpl never.
+Local Arguments insert_at : simpl never.
+Local Arguments replace_nth : simpl never.
+Local Arguments earliest_available_moment : simpl never.
+Local Arguments latest_available_moment : simpl never.
+Local Arguments blocks : simpl never.
+Local Arguments can_add_op_at : simpl never.
+Local Arguments Nat.max : simpl never.
+Local Arguments Z.of_nat : simpl never.
+Local Arguments nth_error : simpl never.
+Local Arguments with_operation : simpl never.
+
+(* insert of a single item without live cache, strategy other than LATEST: one batch *)
+Lemma insert_single_unfold c i it s :
+  s <> LATEST -> (s = EARLIEST -> cache c = None) ->
+  insert c i [it] s =
+    match do_batch (mki (moms c) None (clamp_index i (length (moms c))) s 0) [it] with
+    | (st, None) => (mutated true (mkc (i_ms st) (i_cache st) (sm c)), inl (Z.of_nat (i_k st)))
+    | (st, Some e) => (mkc (i_ms st) (i_cache st) (sm c), inr e)
+    end.
+Proof.
+  intros Hs Hc. unfold insert. set (k := clamp_index i (length (moms c))).
+  assert (H0 : (if negb (strategy_eqb s EARLIEST) || negb (Nat.eqb k (length (moms c))) then None else cache c) = None).
+  { destruct s; simpl; try reflexivity. rewrite (Hc eq_refl). destruct (negb _); reflexivity. }
+  rewrite H0.
+  assert (Hb : match s with NEW => map (fun it0 => [it0]) [it] | _ => group_into_moment_compatible [it] end = [[it]])
+    by (destruct s; try apply group_single; reflexivity).
+  rewrite Hb. destruct s; try congruence; cbn [do_batches];
+    destruct (do_batch _ [it]) as [st [e|]]; reflexivity.
+Qed.
+
 (* NEW and NEW_THEN_INLINE: a new moment at the clamped index holding exactly the operation *)
 Theorem insert_single_new c i o s : is_new s = true ->
   insert c i [IOp o] s =
     (mkc (insert_at (clamp_index i (length (moms c))) [o] (moms c)) None no_sums,
      inl (Z.of_nat (S (clamp_index i (length (moms c)))))).
 Proof.
-  intros Hs. pose proof (clamp_index_le i (length (moms c))) as Hk.
+  intros Hs. rewrite insert_single_unfold by (destruct s; discriminate).
+  pose proof (clamp_index_le i (length (moms c))) as Hk.
   set (k := clamp_index i (length (moms c))) in *.
   pose proof (place_on_blank (moms c) k o Hk) as Hp.
-  destruct s; try discriminate; unfold insert; fold k; simpl; unfold do_batch, needs_blank, place_item, determine; simpl.
-  Show.
-Qed.
-
-(* a Moment is inserted intact at the clamped index, whatever the strategy (no live cache) *)
-Theorem insert_single_moment c i m s : cache c = None ->
-  exists c', insert c i [IMom m] s = (c', inl (Z.of_nat (S (clamp_index i (length (moms c)))))) /\
-             moms c' = insert_at (clamp_index i (length (moms c))) m (moms c).
-Proof.
-  intros Hc. set (k := clamp_index i (length (moms c))).
-  destruct s; unfold insert; fold k; rewrite Hc; simpl;
-    repeat match goal with |- context [if ?b then None else None] => replace (if b then None else None) with (@None pcache) by (destruct b; reflexivity) end;
-    unfold do_batch, needs_blank, place_item, determine, insert_latest; simpl.
-  1-4: eexists; split; [repeat f_equal; lia|reflexivity].
-  destruct (Z.max (Z.of_nat k) (-1 + 1) =? -1) eqn:E; [apply Z.eqb_eq in E; lia|].
-  eexists. split; [repeat f_equal; lia|reflexivity].
+  destruct s; try discriminate; unfold do_batch, needs_blank; cbn [i_cache i_s i_ms i_k i_maxp place_items];
+    unfold place_item, determine; cbn [i_cache i_s i_ms i_k i_maxp]; rewrite Hp; cbn [i_ms i_cache i_k i_maxp i_s mutated moms cache sm];
+    repeat f_equal; lia.
 Qed.
 
 (* INLINE: into the moment just before the index when that moment accepts the operation, else a new moment *)
@@ -208,18 +227,186 @@ Theorem insert_single_inline c i o :
     | O => (mkc (insert_at O [o] (moms c)) None no_sums, inl 1)
     end.
 Proof.
-  intros k. pose proof (clamp_index_le i (length (moms c))) as Hk. fold k in Hk.
-  unfold insert. fold k. simpl. unfold do_batch, needs_blank. simpl. rewrite can_add_spec. simpl.
-  destruct k as [|k']; simpl.
-  - unfold place_item, determine. simpl. reflexivity.
-  - destruct (nth_error (moms c) k') as [m|] eqn:En; [|apply nth_error_None in En; lia].
-    destruct (blocks m o) eqn:Eb; simpl.
-    + unfold place_item, determine. simpl.
-      pose proof (place_on_blank (moms c) (S k') o Hk) as Hp.
-      rewrite Hp. simpl. repeat f_equal; lia.
-    + unfold place_item, determine. simpl. unfold place. destruct (Nat.eqb_spec k' (length (moms c))) as [E|_]; [lia|].
+  intros k. rewrite insert_single_unfold by discriminate.
+  pose proof (clamp_index_le i (length (moms c))) as Hk. fold k in Hk. fold k.
+  unfold do_batch, needs_blank. cbn. rewrite can_add_spec.
+  destruct k as [|k'].
+  - cbn. unfold place_item, determine. cbn. rewrite (place_on_blank (moms c) 0 o Hk). cbn. reflexivity.
+  - cbn. destruct (nth_error (moms c) k') as [m|] eqn:En; [|apply nth_error_None in En; lia].
+    destruct (blocks m o) eqn:Eb; cbn; unfold place_item, determine; cbn.
+    + rewrite (place_on_blank (moms c) (S k') o Hk). cbn. repeat f_equal; lia.
+    + unfold place. replace (Nat.eqb k' (length (moms c))) with false by (symmetry; apply Nat.eqb_neq; lia).
       rewrite En. unfold with_operation.
       assert (Ho : operates_on m (qs o) = false).
       { unfold blocks in Eb. destruct (operates_on m (qs o)); [discriminate|reflexivity]. }
-      rewrite Ho. simpl. repeat f_equal; lia.
+      rewrite Ho. cbn. repeat f_equal; lia.
+Qed.
+
+(* ==== D4 for one inserted operation: it never jumps over a conflicting operation ==== *)
+(* how a single operation can land: in a new moment at the (clamped) index k, or at the end of an
+   existing moment p such that no moment between p and the insertion point (p itself included)
+   holds an operation that conflicts with it *)
+Definition lands (ms ms' : list moment) (o : opd) (k : nat) : Prop :=
+  ms' = insert_at k [o] ms \/
+  exists p m, nth_error ms p = Some m /\ ms' = replace_nth p (m ++ [o]) ms /\
+              forall j, (Nat.min p k <= j < Nat.max (S p) k)%nat -> free_at ms o j.
+
+Lemma free_at_join ms o p : free_at ms o p -> exists m, nth_error ms p = Some m /\ place ms p (IOp o) = inl (replace_nth p (m ++ [o]) ms).
+Proof.
+  intros [m [Hn Hb]]. exists m. split; [exact Hn|]. unfold place.
+  assert (Hlt : (p < length ms)%nat) by (apply nth_error_Some; congruence).
+  replace (Nat.eqb p (length ms)) with false by (symmetry; apply Nat.eqb_neq; lia).
+  rewrite Hn. unfold with_operation.
+  assert (Ho : operates_on m (qs o) = false) by (unfold blocks in Hb; destruct (operates_on m (qs o)); [discriminate|reflexivity]).
+  rewrite Ho. reflexivity.
+Qed.
+
+Lemma eam_after_blank (ms : list moment) o k : (k <= length ms)%nat ->
+  (k = O \/ blocked_at ms o (Nat.pred k)) -> earliest_available_moment (insert_at k [] ms) o k = k.
+Proof.
+  intros Hk Hb. unfold earliest_available_moment. rewrite insert_at_length_S. rewrite Nat.min_l by lia.
+  destruct k as [|k']; [reflexivity|]. destruct Hb as [Hb|[m [Hn Hb]]]; [discriminate|]. simpl in Hn.
+  cbn [eam_loop]. rewrite nth_error_insert_at_lt by lia. rewrite Hn, Hb. reflexivity.
+Qed.
+
+Lemma needs_blank_single_earliest ms k o :
+  needs_blank (mki ms None k EARLIEST 0) [IOp o] = negb (can_add_op_at ms k o || Nat.ltb 0 k && can_add_op_at ms (Nat.pred k) o).
+Proof. unfold needs_blank. cbn [i_cache i_s i_ms i_k forallb strategy_eqb andb]. rewrite andb_true_r. reflexivity. Qed.
+
+Theorem insert_single_earliest c i o : cache c = None ->
+  let k := clamp_index i (length (moms c)) in
+  exists c' z, insert c i [IOp o] EARLIEST = (c', inl z) /\ cache c' = None /\ sm c' = no_sums /\
+               lands (moms c) (moms c') o k /\ (Z.of_nat k <= z <= Z.of_nat (S k)).
+Proof.
+  intros Hc k. rewrite insert_single_unfold by (try discriminate; intros _; exact Hc).
+  pose proof (clamp_index_le i (length (moms c))) as Hk. fold k in Hk. fold k.
+  set (ms := moms c) in *.
+  destruct (eam_spec ms o k Hk) as [Hp1 [Hp2 Hp3]]. set (p := earliest_available_moment ms o k) in *.
+  unfold do_batch. rewrite needs_blank_single_earliest.
+  destruct (can_add_op_at ms k o || Nat.ltb 0 k && can_add_op_at ms (Nat.pred k) o) eqn:Ecan; cbn [negb].
+  - (* no blank moment *)
+    cbn [place_items i_ms i_cache i_k i_s i_maxp]. unfold place_item, determine. cbn [i_ms i_cache i_k i_s i_maxp]. fold p.
+    destruct (Nat.lt_ge_cases p k) as [Hlt|Hge].
+    + (* slides back to p < k *)
+      destruct (free_at_join ms o p (Hp2 p ltac:(lia))) as [m [Hn Hpl]]. rewrite Hpl. cbn.
+      eexists. eexists. split; [reflexivity|]. cbn. repeat split; try lia.
+      right. exists p, m. split; [exact Hn|]. split; [reflexivity|]. intros j Hj. apply Hp2. lia.
+    + assert (p = k) by lia. clearbody p. subst p.
+      destruct (Nat.eq_dec k (length ms)) as [Hend|Hmid].
+      * (* at the end: a new last moment *)
+        unfold place. rewrite Hend, Nat.eqb_refl. cbn. eexists. eexists. split; [reflexivity|]. cbn.
+        repeat split; try lia. left. rewrite ?Hend. rewrite insert_at_length. reflexivity.
+      * (* shares the moment at the insertion point, which accepts it *)
+        assert (Hfree : free_at ms o k).
+        { rewrite !can_add_spec in Ecan.
+          destruct (nth_error ms k) as [m|] eqn:En; [|apply nth_error_None in En; lia].
+          destruct (blocks m o) eqn:Eb; [|exists m; split; [exact En|exact Eb]].
+          cbn [negb orb] in Ecan. destruct k as [|k']; [discriminate|]. cbn [Nat.pred] in Ecan, Hp3.
+          destruct Hp3 as [Hp3|[m' [Hn' Hb']]]; [discriminate|]. rewrite Hn', Hb' in Ecan. discriminate. }
+        destruct (free_at_join ms o k Hfree) as [m [Hn Hpl]]. rewrite Hpl. cbn.
+        eexists. eexists. split; [reflexivity|]. cbn. repeat split; try lia.
+        right. exists k, m. split; [exact Hn|]. split; [reflexivity|]. intros j Hj.
+        assert (j = k) by lia. subst j. exact Hfree.
+  - (* a blank moment at k receives the operation *)
+    apply orb_false_iff in Ecan as [Ek Ek1].
+    assert (Hbl : k = O \/ blocked_at ms o (Nat.pred k)).
+    { destruct k as [|k']; [left; reflexivity|right]. cbn [Nat.ltb Nat.leb andb Nat.pred] in Ek1. rewrite can_add_spec in Ek1.
+      destruct (nth_error ms k') as [m|] eqn:En; [|discriminate]. exists m. split; [exact En|].
+      destruct (blocks m o); [reflexivity|discriminate]. }
+    cbn [place_items i_ms i_cache i_k i_s i_maxp]. unfold place_item, determine. cbn [i_ms i_cache i_k i_s i_maxp].
+    rewrite (eam_after_blank ms o k Hk Hbl).
+    rewrite (place_on_blank ms k o Hk). cbn. eexists. eexists. split; [reflexivity|]. cbn.
+    repeat split; try lia. left. reflexivity.
+Qed.
+
+Theorem insert_single_latest c i o :
+  let k := clamp_index i (length (moms c)) in
+  exists c' z, insert c i [IOp o] LATEST = (c', inl z) /\ cache c' = None /\ sm c' = no_sums /\
+               lands (moms c) (moms c') o k /\ Z.of_nat k < z.
+Proof.
+  intros k. pose proof (clamp_index_le i (length (moms c))) as Hk. fold k in Hk.
+  unfold insert. fold k. cbn [strategy_eqb negb orb]. rewrite group_single.
+  unfold insert_latest. cbn [rev app latest_batches latest_items]. unfold latest_item. cbn [l_ms l_max].
+  set (ms := moms c) in *.
+  destruct (Nat.eq_dec k (length ms)) as [Hend|Hmid].
+  - (* at the end *)
+    unfold latest_available_moment. rewrite Hend, Nat.eqb_refl. rewrite Z.ltb_irrefl. cbn.
+    rewrite Z.eqb_compare. destruct (Z.of_nat (length ms) ?= -1) eqn:E; try (apply Z.compare_eq in E; lia).
+    + eexists. eexists. split; [reflexivity|]. cbn. repeat split; try lia. left. rewrite insert_at_length. reflexivity.
+    + eexists. eexists. split; [reflexivity|]. cbn. repeat split; try lia. left. rewrite insert_at_length. reflexivity.
+  - destruct (lam_spec ms o k ltac:(lia)) as [H1 [H2 H3]]. set (p := latest_available_moment ms o k) in *.
+    destruct (p <? Z.of_nat k) eqn:Elt.
+    + (* the moment at k blocks: a new moment at k *)
+      cbn. match goal with |- context [?a =? -1] => replace (a =? -1) with false by (symmetry; apply Z.eqb_neq; lia) end.
+      eexists. eexists. split; [reflexivity|]. cbn. repeat split; try lia. left. reflexivity.
+    + apply Z.ltb_ge in Elt. replace (p <? Z.of_nat (length ms)) with true by (symmetry; apply Z.ltb_lt; lia).
+      assert (Hf : free_at ms o (Z.to_nat p)) by (apply H2; lia).
+      destruct Hf as [m [Hn Hb]]. rewrite Hn. unfold with_operation.
+      assert (Ho : operates_on m (qs o) = false) by (unfold blocks in Hb; destruct (operates_on m (qs o)); [discriminate|reflexivity]).
+      rewrite Ho. cbn. match goal with |- context [?a =? -1] => replace (a =? -1) with false by (symmetry; apply Z.eqb_neq; lia) end.
+      eexists. eexists. split; [reflexivity|]. cbn. repeat split; try lia.
+      right. exists (Z.to_nat p), m. split; [exact Hn|]. split; [reflexivity|]. intros j Hj. apply H2; lia.
+Qed.
+
+(* all five strategies: one operation inserted into a circuit without live cache lands without jumping
+   over a conflicting operation, existing operations stay where they are (up to one new moment) *)
+Theorem insert_single_lands c i o s : cache c = None ->
+  exists c' z, insert c i [IOp o] s = (c', inl z) /\ lands (moms c) (moms c') o (clamp_index i (length (moms c))).
+Proof.
+  intros Hc. destruct s.
+  - destruct (insert_single_earliest c i o Hc) as [c' [z [H [_ [_ [Hl _]]]]]]. exists c', z. split; assumption.
+  - rewrite (insert_single_new c i o NEW eq_refl). eexists. eexists. split; [reflexivity|]. left. reflexivity.
+  - pose proof (insert_single_inline c i o) as H. cbv zeta in H. rewrite H. clear H.
+    destruct (clamp_index i (length (moms c))) as [|k'] eqn:Ek.
+    + eexists. eexists. split; [reflexivity|]. left. reflexivity.
+    + destruct (nth_error (moms c) k') as [m|] eqn:En.
+      * destruct (blocks m o) eqn:Eb.
+        -- eexists. eexists. split; [reflexivity|]. left. reflexivity.
+        -- eexists. eexists. split; [reflexivity|]. right. exists k', m. split; [exact En|]. split; [reflexivity|].
+           intros j Hj. assert (j = k') by lia. subst j. exists m. split; assumption.
+      * eexists. eexists. split; [reflexivity|]. left. reflexivity.
+  - rewrite (insert_single_new c i o NEW_THEN_INLINE eq_refl). eexists. eexists. split; [reflexivity|]. left. reflexivity.
+  - destruct (insert_single_latest c i o) as [c' [z [H [_ [_ [Hl _]]]]]]. exists c', z. split; assumption.
+Qed.
+
+(* ==== D4 for the cached append: the index computed from the cache lies after every conflicting operation ==== *)
+Lemma in_flat_memz (sel : opd -> list Z) z x m : In x m -> In z (sel x) -> memz z (flat_map sel m) = true.
+Proof. intros Hx Hz. apply memz_In. apply in_flat_map. exists x. split; assumption. Qed.
+
+Theorem cached_place_free pc ms o idx pc' :
+  cache_matches pc ms -> cache_append pc (IOp o) = (idx, pc') ->
+  forall j, (idx <= j < length ms)%nat -> free_at ms o j.
+Proof.
+  intros [Hlen [Hq [Hm Hc]]] Ha j Hj. unfold cache_append in Ha. injection Ha as <- _.
+  destruct (nth_error ms j) as [m|] eqn:En; [|apply nth_error_None in En; lia].
+  exists m. split; [exact En|]. destruct (blocks m o) eqn:Eb; [|reflexivity]. exfalso.
+  apply blocks_spec in Eb as [x [Hx Hcf]]. unfold conflicts in Hcf. rewrite !orb_true_iff in Hcf.
+  assert (G : forall (sel : moment -> list Z) (mp : amap) (ks : list Z) z,
+            (forall k, lookup k mp = last_index sel k ms 0) -> In z ks -> memz z (sel m) = true ->
+            (max_after mp ks <= j)%nat -> False).
+  { intros sel mp ks z Hmp Hz Hmem Hle.
+    destruct (last_index_ge sel z m ms j 0 En Hmem) as [i0 [Hi Hge]].
+    pose proof (after_le_max mp z ks Hz) as Ha. unfold after in Ha. rewrite Hmp, Hi in Ha. lia. }
+  unfold gea_index in Hj.
+  destruct Hcf as [[[H|H]|H]|H]; apply not_disjoint_spec in H as [z [Hz1 Hz2]].
+  - eapply (G mqubits (qi pc) (qs o) z Hq Hz1); [eapply in_flat_memz; eassumption|lia].
+  - eapply (G mmkeys (mi pc) (mk o) z Hm Hz1); [eapply in_flat_memz; eassumption|lia].
+  - eapply (G mmkeys (mi pc) (ck o) z Hm Hz1); [eapply in_flat_memz; eassumption|lia].
+  - eapply (G mckeys (ci pc) (mk o) z Hc Hz2); [eapply in_flat_memz; eassumption|lia].
+Qed.
+
+(* a cached append of one operation lands like an uncached insert at the end *)
+Theorem cached_append_lands pc ms o idx pc' :
+  cache_matches pc ms -> cache_append pc (IOp o) = (idx, pc') ->
+  exists ms', place ms idx (IOp o) = inl ms' /\ lands ms ms' o (length ms).
+Proof.
+  intros Hm Ha. destruct (cache_place_ok pc ms (IOp o) idx pc' Hm Ha) as [ms' [Hp _]].
+  exists ms'. split; [exact Hp|]. pose proof (cached_place_free pc ms o idx pc' Hm Ha) as Hf.
+  unfold place in Hp. destruct (Nat.eqb_spec idx (length ms)) as [E|E].
+  - injection Hp as <-. left. rewrite insert_at_length. reflexivity.
+  - destruct (nth_error ms idx) as [m|] eqn:En; [|discriminate].
+    assert (Hlt : (idx < length ms)%nat) by (apply nth_error_Some; congruence).
+    destruct (with_operation m o) as [m'|] eqn:Ew; [|discriminate]. injection Hp as <-.
+    apply with_operation_eq in Ew. subst m'. right. exists idx, m. split; [exact En|]. split; [reflexivity|].
+    intros j Hj. apply Hf. lia.
 Qed.
